@@ -159,6 +159,23 @@ def run(tier, seed):
                     files[f"{d}/x.bin"] = {"raw": bytes([40 + i])}
                     files[f"{d}/y.inc"] = {"stmts": [("db", 50 + i)]}
             cases.append((files, search, "/cwd", "/p/main.asm"))
+    # the same name asked for twice in one run, by files in different directories: once where only a
+    # search path has it, once where the asking file's own directory has it too (in both orders) —
+    # what one lookup found must not influence the next
+    for search in search_variants:
+        for order in (0, 1):
+            for own_first_exists in (0, 1):
+                main = [("db", 1), ("include", "x.inc"), ("db", 2), ("include", "sub/y.inc"), ("db", 3)]
+                if order:
+                    main = [("db", 1), ("include", "sub/y.inc"), ("db", 2), ("include", "x.inc"), ("db", 3)]
+                files = {"/p/main.asm": {"stmts": main},
+                         "/p/sub/y.inc": {"stmts": [("db", 0x30), ("include", "x.inc"), ("incbin", "x.bin"), ("db", 0x31)]},
+                         "/p/sub/x.inc": {"stmts": [("db", 0x22)]}, "/p/sub/x.bin": {"raw": bytes([0x23])},
+                         "/lib1/x.inc": {"stmts": [("db", 0x11)]}, "/lib1/x.bin": {"raw": bytes([0x12])},
+                         "/lib2/x.inc": {"stmts": [("db", 0x44)]}}
+                if own_first_exists:
+                    files["/p/x.inc"] = {"stmts": [("db", 0x55)]}
+                cases.append((files, search, "/cwd", "/p/main.asm"))
     n_exh = len(cases)
     # (2) include graphs of depth <= 3 with relative names crossing directories; after an included
     #     file ends, lookups continue relative to the including file
